@@ -182,10 +182,10 @@ func (r *Report) finish() int {
 		}
 	}
 	for _, l := range knownLines {
-		fmt.Println(l)
+		fmt.Fprintln(protoOut, l)
 	}
 	for _, l := range vioLines {
-		fmt.Println(l)
+		fmt.Fprintln(protoOut, l)
 	}
 	cov := r.Coverage
 	if len(r.Samples) > 0 {
